@@ -1066,6 +1066,18 @@ def caltrack_zone_stream(run, model, tz, seed, nsets):
     rng = random.Random(seed + 101)
     third = {"US/Pacific": "Europe/Berlin", "US/Eastern": "Europe/Berlin", "Europe/Berlin": "US/Eastern",
              "Australia/Sydney": "Europe/Berlin"}[tz]
+    zid = {"UTC": 0, tz: 1, third: 2}
+    # which clock does from_series label the rows on? (meter local, feed in the third zone)
+    probe = fl.hourly_frame(random.Random(1), tz=tz, start="2022-06-06", ndays=2)
+    try:
+        pz = {0: 0, 2: 1}.get(zid.get(str(R.from_series(probe["observed"], probe["temperature"].tz_convert(third), False).df.index.tz)))
+    except Exception:  # noqa
+        pz = None
+    run.cov["caltrack_from_series_clock_detected"] = {0: "UnionToUtc (code as it is)", 1: "WeatherClock"}.get(pz, "unrecognised")
+    if pz is None:
+        run.corr_failures.append({"stream": "policy-probe", "impl": "from_series index zone", "model": "no zone_policy explains the probe"})
+        pz = 0
+    iz_terms, iz_meta = [], []
     for k in range(nsets):
         start = (pd.Timestamp("2022-01-01") + pd.Timedelta(days=rng.randrange(0, 330))).strftime("%Y-%m-%d")
         ndays = rng.choice([5, 12, 25])
@@ -1080,7 +1092,15 @@ def caltrack_zone_stream(run, model, tz, seed, nsets):
                     u = None
                 else:
                     u = alter(rep[["observed"]], name, seed % 1000 + k)["observed"]
-                o = observe(lambda: model.predict(R.from_series(u, temp, electric)))
+                try:
+                    data = R.from_series(u, temp, electric)
+                    got = zid.get(str(data.df.index.tz))
+                    if got is not None:
+                        iz_terms.append("(%s, %s, %s, %s)" % (zlit(pz), "None" if u is None else "(Some 1%Z)", zlit(zid[wz]), zlit(got)))
+                        iz_meta.append(dict(case, variant=name))
+                    o = observe(lambda: model.predict(data))
+                except Exception as e:  # noqa
+                    o = {"ok": False, "err": type(e).__name__, "msg": str(e)[:120]}
                 obs[name] = o
                 run.count((vlib.sha(case), name))
                 run.dist("caltrack_zones_outcome", "ok" if o["ok"] else o["err"])
@@ -1094,6 +1114,13 @@ def caltrack_zone_stream(run, model, tz, seed, nsets):
                 return "unexplained"
             run.dist("caltrack_zones", "meter %s / weather %s" % ("local", "UTC" if wz == "UTC" else ("local" if wz == tz else "third zone")))
             pairwise(run, "caltrack", obs, {"stream": "fitted", "path": "from_series-zones"}, case, classify=classify)
+    if iz_terms:
+        bad = run.coq_cases("iz", IMPORTS, "", iz_terms, "check_iz", shard=400, case_type="(Z * option Z * Z * Z)%type")
+        if bad is None:
+            run.proof_ok = False
+        else:
+            for i in bad:
+                run.corr_failures.append({"stream": "iz", "case": iz_meta[i]})
 
 
 # ================================================================== corpus: witnesses of the refuted statements
